@@ -100,6 +100,11 @@ pub fn parse_byte_list(input: &str) -> Result<Vec<u8>, DataError> {
         }
     }
 
+    if start_quote_count == input.len() {
+        // only quotes, the empty byte list
+        return Ok(bytes);
+    }
+
     let real_len = input.len() - start_quote_count * 2;
 
     if start_quote_count >= 2 {
